@@ -241,7 +241,9 @@ namespace Dune {
             << className<Value>()
             << " (" << n << " items were extracted successfully)");
       }
-      Value dummy;
+      // only whitespace may follow; extract a char (not a Value: a failed extraction
+      // of a Value consumes signs, digits and decimal points and then reports eof)
+      char dummy;
       s >> dummy;
       // now extraction should have failed, and eof should be set
       if(not s.fail() or not s.eof())
